@@ -13,6 +13,7 @@ func init() {
 	register("C20", func(c *core.Ctx, tier string) {
 		c20LockDiscipline(c)
 		c20MapDiscipline(c)
+		lockBalance(c, "C20.1c", "types", "utils")
 		c20NoSharing(c)
 		c20Snapshot(c, "C20.2b")
 		c20Bounds(c)
